@@ -107,7 +107,7 @@ Proof. intros st [scr [sched ->]]. apply wrun_inv. apply MInv_init. Qed.
 
 Lemma quiescentb_sound : forall st, reachable st -> quiescentb st = true -> quiescent st.
 Proof.
-  intros st R H. destruct (reachable_minv st R) as [_ [_ P]].
+  intros st R H. destruct (reachable_minv st R) as [_ [[_ P] _]].
   unfold quiescentb in H. apply andb_true_iff in H. destruct H as [H H3].
   apply andb_true_iff in H. destruct H as [H1 H2].
   split; [|split].
